@@ -47,6 +47,12 @@ NESTED_VENDOR = [
     ("t1 = T('t')\nt2 = T('u')\n"
      "s1 = Query.from_(t2).select(fn.Coalesce(t2.a, Interval(days=2)), Case().when(t2.b > Interval(minutes=5), Array(1)).else_(Array(2, 3)))\n"
      "q2 = Query.from_(t1).select(fn.Coalesce(t1.a, Interval(hours=1)), fn.Max(Interval(days=3))).where(t1.a.isin(s1))", "q2"),
+    # vendor forms inside the temporal clause of a table (FOR … AS OF / FOR PORTION OF): same statement, same dialect
+    ("t1 = T('t')\nt2 = T('u').for_(terms.SystemTimeValue().as_of(fn.Now() - Interval(hours=1)))\n"
+     "q2 = Query.from_(t1).join(t2).on(t1.a == t2.a).select(t1.a).where(t1.c > Interval(hours=1))", "q2"),
+    ("t1 = T('t').for_portion(terms.SystemTimeValue().from_to(fn.Now() - Interval(weeks=1), fn.Now() + Interval(days=2, hours=3)))\n"
+     "s1 = Query.from_(t1).select(t1.a).where(t1.b < Interval(minutes=5))\n"
+     "q2 = Query.from_(T('w')).select('a').where(F('a').isin(s1))", "q2"),
     ("t1 = T('t')\nt2 = T('u')\n"
      "q2 = Query.from_(t1).select(t1.a, Array(3)).union(Query.from_(t2).select(t2.a, Array(1, 2)).where(t2.b > Interval(weeks=1)))", "q2"),
 ]
@@ -214,7 +220,9 @@ def examine(case):
                     F("alias-quote", "alias %s is quoted %r, allowed for %s: %r" % (name, t.quote, outer, sorted(map(str, allowed))), outer=outer)
                 break
     # --- AS keyword uniformly
-    n_as = sum(1 for i, t in enumerate(toks) if t.kind == "kw" and t.val == "AS" and not (i + 1 < len(toks) and toks[i + 1].kind == "p"))
+    # (`AS OF` of a temporal clause is not the alias keyword)
+    n_as = sum(1 for i, t in enumerate(toks) if t.kind == "kw" and t.val == "AS" and not (i + 1 < len(toks) and toks[i + 1].kind == "p")
+               and not (i + 1 < len(toks) and toks[i + 1].val.upper() == "OF"))
     n_alias_defs = len(re.findall(r"(?:al\d+|my col|sq\d+|sq_q\d+)[\"`]?(?=[ ,)]|$)", text))
     if b.as_keyword and "WITH " not in text:
         pass  # every alias definition must carry AS: checked through the model correspondence and the erasure below
